@@ -1,14 +1,19 @@
 """Translate the small regular-expression subset the repository uses in anchored form
-(^ literal chars, [..] classes with ranges, * + ? quantifiers, $) to an SMT-LIB RegLan term."""
+(^ literal chars, [..] classes with ranges, * + ? quantifiers, $ or \\Z) to an SMT-LIB RegLan term."""
 from .terms import App, strlit
 
 RL = 'RegLan'
 
 
 def anchored_to_smt(pattern):
-    if not (pattern.startswith('^') and pattern.endswith('$')):
+    # Python semantics of the end anchors (no MULTILINE): `\\Z` matches only at the very end, `$` matches at
+    # the end AND before a newline that ends the string - so `^X$` accepts "X" and "X\\n".
+    if pattern.startswith('^') and pattern.endswith('\\Z'):
+        body, tail_nl = pattern[1:-2], False
+    elif pattern.startswith('^') and pattern.endswith('$') and not pattern.endswith('\\$'):
+        body, tail_nl = pattern[1:-1], True
+    else:
         return None
-    body = pattern[1:-1]
     parts = []
     i = 0
     while i < len(body):
@@ -28,6 +33,8 @@ def anchored_to_smt(pattern):
             atom = App({'*': 're.*', '+': 're.+', '?': 're.opt'}[body[i]], RL, atom)
             i += 1
         parts.append(atom)
+    if tail_nl:
+        parts.append(App('re.opt', RL, App('str.to_re', RL, strlit('\n'))))
     if not parts:
         return App('str.to_re', RL, strlit(''))
     if len(parts) == 1:
